@@ -2,7 +2,7 @@ SPECIFICATION Spec
 CONSTANTS
   L = 8
   TolU = 2
-  TmidMax = 30
+  TmidMax = 26
   MaxN = 5
   UseTol = TRUE
   Side = "left"
